@@ -186,5 +186,24 @@ NOT_APPLICABLE = {
     "C30": "literal denotation depends on character-level lexer behaviour on every string and on str::parse: value semantics, not code shape",
     "C35": "agreement of offset->node search with the resolver's keys is a relation between source ranges computed at run time",
 }
-for _p in ["C14", "C32", "C33", "C36"]:
+CLAIMS.update({
+    "C14": {
+        "text": "Decides the sub-pattern order clause: every order-sensitive traversal (comparison, binding, or-pattern traversal in the generator; deconstruction in the exhaustiveness pass) takes the sub-patterns of named struct / named variant patterns through a declaration-order lookup "
+        "(`decl.fields.iter().map(.. named.find(by name))` or an *_in_order helper), never in source order; or-pattern slots are declared from the left side and right-side bindings store into them (FIELD-ORDER); the variant tag tested by `for` equals option.some (TAG-AGREE).",
+        "note": "Which arm is selected at run time is not decided.",
+    },
+    "C32": {
+        "text": "Decides the location discipline: translate_expr/translate_stmt set the current location before emitting and emitted instructions record it; the location tables are built exactly once, after optimisation and before assembly, advancing one index per Line::Instr exactly like the label resolver; "
+        "the VM looks up pc-after-increment taking the predecessor entry in both outcomes of the binary search, for the fault and for return addresses; frames hold return addresses; the trace is collected outermost first and printed reversed exactly once (LOC-DISCIPLINE).",
+        "note": "That the line attached to each instruction is the line a user expects is not decided.",
+    },
+    "C36": {
+        "text": "Decides: hand-written VmType implementations are mirror images (same scalar accessor pair; option/result payload-then-construct vs deconstruct-tag-payload with tags equal to the prelude's declaration order; arrays and tuples pushed in order and popped in order given that deconstruct_* pushes reversed); "
+        "generated HostFunctionArgs::from_vm pops arguments in reverse declaration order keeping their indices; host function ids are positions in the one sorted statics.host_funcs set used by both the generator and the binding generator (MIRROR, TAG-AGREE).",
+        "note": "Generated code for user structs/enums depends on the input signature and is not decided.",
+    },
+})
+NOT_APPLICABLE["C33"] = "unit inference (char index vs byte offset vs token index) over lexer/parser/diagnostics needs the type-resolved MIR engine with per-field def-use; that engine was not completed in the time available, and no sound syntactic proxy was found (a name-based one would alarm on behaviour-preserving edits)"
+
+for _p in []:
     NOT_APPLICABLE.setdefault(_p, PENDING)
